@@ -163,7 +163,9 @@ def naming_locals(P, F):
                     lams[n["r"]] = (list(op.params), st[0]["c"][0])
             continue
         t = n.get("t", "")
-        if not (t.startswith("const ") or d.get("const")):
+        is_lref = t.rstrip().endswith("&") and not t.rstrip().endswith("&&")
+        # a reference cannot be reseated: `T &x = e` names the object e denotes, const or not
+        if not (t.startswith("const ") or d.get("const") or is_lref):
             continue
         bare = t.replace("const ", "").strip()
         if not (is_arith(bare) or bare.endswith("&") or bare in ("std::size_t", "size_t", "unsigned long", "std::string")):
